@@ -104,9 +104,26 @@ type AAddr struct {
 func (a *AAddr) IsNil() bool { return a == nil || a.K == "nil" }
 
 type ATas struct {
-	Addr  Seq[string] `json:"addr"`
-	Scope string      `json:"scope"`
-	Typ   string      `json:"typ"`
+	Addr   Seq[string] `json:"addr"`
+	Scope  string      `json:"scope"`
+	Typ    string      `json:"typ"`
+	Nested Seq[ATas]   `json:"nested,omitempty"`
+}
+
+func buildTas(tb ATas) *schema.Targetable {
+	addr := lang.Address{}
+	for i, n := range tb.Addr {
+		if i == 0 {
+			addr = append(addr, lang.RootStep{Name: n})
+		} else {
+			addr = append(addr, lang.AttrStep{Name: n})
+		}
+	}
+	t := &schema.Targetable{Address: addr, ScopeId: lang.ScopeId(tb.Scope), AsType: friendlyType(tb.Typ)}
+	for _, n := range tb.Nested {
+		t.NestedTargetables = append(t.NestedTargetables, buildTas(n))
+	}
+	return t
 }
 
 func friendlyType(t string) cty.Type {
@@ -310,15 +327,7 @@ func buildBody(b *ABody) *schema.BodySchema {
 		bs.Attributes = nil
 	}
 	for _, tb := range b.Tas {
-		addr := lang.Address{}
-		for i, n := range tb.Addr {
-			if i == 0 {
-				addr = append(addr, lang.RootStep{Name: n})
-			} else {
-				addr = append(addr, lang.AttrStep{Name: n})
-			}
-		}
-		bs.TargetableAs = append(bs.TargetableAs, &schema.Targetable{Address: addr, ScopeId: lang.ScopeId(tb.Scope), AsType: friendlyType(tb.Typ)})
+		bs.TargetableAs = append(bs.TargetableAs, buildTas(tb))
 	}
 	for n, a := range b.Attrs {
 		if b.Any {
